@@ -388,6 +388,14 @@ func fromjsonTexts() []string {
 		"true false", "TRUE", "tru", "-", "--1", "1e", "1e+", "1.e1", "[1.0,1.50,2e0,-0]", "{\"1\":1,\"01\":2}", "\"\\u00E9\\u00e9\"", "[\"a\",\"b\"]",
 		strings.Repeat("[", 100) + strings.Repeat("]", 100), strings.Repeat("[", 10001) + strings.Repeat("]", 10001), strings.Repeat("[", 50),
 		"{\"_start\":5,\"a\":1}", "\"\\\"\"", "[null,true,false]", " [ 1 , { \"a\" : 2 } ] "}
+	// trailing data: every structural token after every kind of top level value and separator
+	for _, v := range []string{"1", "null", "\"s\"", "[1,2]", "{\"a\":1}", "[]", "{}"} {
+		for _, sep := range []string{"", " ", "\n"} {
+			for _, tok := range []string{"]", "}", ",", ":", "\"", "[", "{", "x", "1", "null", "\\", "/", "]]", "}1", "] 1"} {
+				raw = append(raw, v+sep+tok)
+			}
+		}
+	}
 	out := make([]string, 0, len(raw)+len(nonStringPool))
 	for _, s := range raw {
 		b, _ := jsonMarshalString(s)
